@@ -509,8 +509,11 @@ func (r *runner) coqCase(sd *Seed, t Target, c Case, in []byte, o Outcome) strin
 	// a stride per generator keeps the number of cases evaluated inside Coq bounded; failures always go there
 	if o.Class != "panic" && o.Class != "timeout" {
 		key := table + "|" + c.Gen + "|" + sd.Name + "|" + t.EP
+
+		r.coqMu.Lock()
 		k := r.coqLeft[key]
 		r.coqLeft[key] = k + 1
+		r.coqMu.Unlock()
 
 		if k%r.stride(c.Gen) != 0 {
 			return ""
